@@ -4,6 +4,7 @@
 From Coq Require Extraction.
 From Coq Require Import ExtrOcamlBasic.
 From Frugal Require Import Bytes Wire Skip Values Desc Spec Routines Encode Decode Checks Tags Bitset Alloc DescMap Conc State Args Unknown.
+From Frugal Require Import EnvParse.
 From Frugal.gen Require Import Params Tables.
 Extraction Language OCaml.
 Extraction "model.ml"
@@ -18,4 +19,5 @@ Extraction "model.ml"
   bs_run bs_zero span_run span_init dm_run dm_empty map_dispatch_tab list_dispatch_tab
   size_arg encode_arg decode_arg uf_run uf_new
   api_step p_init run_history fresh_outcome
+  env_alive parse_or_default
   maxDepthLimit params_ok tables_ok legacy_ok access_ok.
